@@ -2,20 +2,24 @@
 # usage: harness/seedtest.sh <dir with patch.diff [demo.py]> <Cxx> [more checks...]
 # Applies the seeded change to a scratch copy of /repo, confirms the repo's suite still passes and the
 # demonstration fails, runs the named checks against the copy, removes the copy.
+# The checks run from a scratch copy of /verif as well (generated Lean files, build outputs, evidence and
+# replays of a mutated tree never touch /verif, and several seed runs can go on side by side).
 set -u
 ROOT="$(cd "$(dirname "$0")/.." && pwd)"
 d=$1; shift
 S=/tmp/seedrepo.$$
-rm -rf $S; cp -r /repo $S; rm -rf $S/.git/worktrees
+V=/tmp/seedverif.$$
+rm -rf $S $V; cp -r /repo $S; rm -rf $S/.git/worktrees
 ( cd $S && git apply --whitespace=nowarn "$d/patch.diff" ) || { echo "PATCH-DOES-NOT-APPLY"; rm -rf $S; exit 3; }
 ( cd $S && /venv/bin/python -m pytest -q -p no:cacheprovider --timeout=900 --deselect tests/test_integration.py::TestIntegration::test_broken --deselect tests/test_live.py --deselect tests/test_proxy.py::test_bad_proxy --deselect tests/test_proxy.py::test_proxy --deselect tests/test_session.py::test_that_on_ping_responds_with_pong tests 2>&1 | tail -1 )
 if [ -f "$d/demo.py" ]; then
-  ( cd $d && PYTHONPATH=$S /venv/bin/python demo.py >/tmp/seed_demo.out 2>&1; echo "demo on mutated tree: exit $?"; tail -2 /tmp/seed_demo.out )
+  ( cd $d && PYTHONPATH=$S /venv/bin/python demo.py >/tmp/seed_demo.$$.out 2>&1; echo "demo on mutated tree: exit $?"; tail -2 /tmp/seed_demo.$$.out; rm -f /tmp/seed_demo.$$.out )
   ( cd $d && PYTHONPATH=/repo /venv/bin/python demo.py >/dev/null 2>&1; echo "demo on clean tree: exit $?" )
 fi
+rsync -a --exclude .git --exclude seeded --exclude replays "$ROOT/" $V/
 for c in "$@"; do
-  LOMOND_REPO=$S "$ROOT/check" $c --tier ${TIER:-quick} 2>&1 | tail -3
+  LOMOND_REPO=$S timeout ${SEED_TIMEOUT:-1500} $V/check $c --tier ${TIER:-quick} 2>&1 | grep -v '^KNOWN-FINDING' | tail -3 | sed "s#$V#/verif#g"
+  rc=${PIPESTATUS[0]}
+  [ "$rc" = 124 ] && echo "TIMEOUT $c (the check did not finish in ${SEED_TIMEOUT:-1500}s)"
 done
-rm -rf $S
-# restore generated files for the real tree
-( cd "$ROOT" && PYTHONPATH=/repo /venv/bin/python harness/translate.py >/dev/null )
+rm -rf $S $V
